@@ -29,6 +29,7 @@ type burstCall struct {
 	Hdr     []KV   `json:"hdr"`
 	CallCT  string `json:"callct"`
 	Helpers []KV   `json:"helpers"`
+	Extra   []KV   `json:"extra"`
 	Raw     *rawCall `json:"raw"` // when set: a plain HTTP request instead of a generated-client call
 }
 
@@ -117,6 +118,14 @@ func doBurst(c *cmd) {
 	}
 	hc := &http.Client{Transport: &http.Transport{MaxIdleConnsPerHost: 128, MaxConnsPerHost: 0}}
 	defer hc.CloseIdleConnections()
+	// the *http.Client handed to the generated clients is shared by every call of the burst (and
+	// http.DefaultClient by the whole process): calls may use it, never reconfigure it
+	sharedState := func() string {
+		d := http.DefaultClient
+		return fmt.Sprintf("given{timeout=%v transport=%p redirect=%v jar=%v} default{timeout=%v transport=%v redirect=%v jar=%v defaultTransport=%p}",
+			hc.Timeout, hc.Transport, hc.CheckRedirect != nil, hc.Jar != nil, d.Timeout, d.Transport != nil, d.CheckRedirect != nil, d.Jar != nil, http.DefaultTransport)
+	}
+	sharedBefore := sharedState()
 	shared := map[string]map[string]Invoker{}
 	mk := func(client string) (map[string]Invoker, error) {
 		reg, ok := clients[client]
@@ -219,7 +228,7 @@ func doBurst(c *cmd) {
 					}
 					ctx, cancel := context.WithTimeout(context.Background(), to)
 					defer cancel()
-					resp, cerr := f(ctx, req, CallOpts{Headers: bc.Hdr, ContentType: bc.CallCT, Helpers: bc.Helpers})
+					resp, cerr := f(ctx, req, CallOpts{Headers: bc.Hdr, ContentType: bc.CallCT, Helpers: bc.Helpers, Extra: bc.Extra})
 					if cerr != nil {
 						res["err"] = describeErr(cerr)
 						if ctx.Err() != nil {
@@ -240,7 +249,11 @@ func doBurst(c *cmd) {
 	log := burstLog
 	burstLog = nil
 	burstMu.Unlock()
-	emit(map[string]any{"ev": "burst_done", "id": c.ID, "results": results, "handlers": log})
+	done := map[string]any{"ev": "burst_done", "id": c.ID, "results": results, "handlers": log, "shared_client_state": sharedBefore}
+	if after := sharedState(); after != sharedBefore {
+		done["shared_client_changed"] = sharedBefore + " -> " + after
+	}
+	emit(done)
 }
 
 // doCodecBurst marshals ONE shared message object from Parallel goroutines (Rounds times each)
